@@ -122,15 +122,19 @@ async fn run_follower(
             let dtos: Vec<ApplyRequestDto> = (*a..*b)
                 .map(|i| ApplyRequestDto::new(i as u64 + 1, reqs[i].clone()))
                 .collect();
-            match node
-                .apply
-                .send(StateApplyRequest::ApplyBatchRequest(dtos))
-                .await
-            {
-                Ok(Ok(_)) => Ok(()),
-                Ok(Err(e)) => Err(e),
-                Err(e) => Err(anyhow::anyhow!("mailbox: {}", e)),
-            }
+            // through the storage glue async-raft calls: FileStore::replicate_to_state_machine (it builds the
+            // ApplyBatchRequest and awaits the apply actor)
+            use async_raft_ext::RaftStorage;
+            let store = rnacos::raft::filestore::core::FileStore::new(
+                1,
+                node.index.clone(),
+                node.snapshot.clone(),
+                node.log.clone(),
+                node.apply.clone(),
+            );
+            let idx: Vec<u64> = dtos.iter().map(|d| d.index).collect();
+            let entries: Vec<(&u64, &ClientRequest)> = idx.iter().zip(dtos.iter().map(|d| &d.request)).collect();
+            store.replicate_to_state_machine(&entries).await
         };
         res.push(json!(ok_err(&r)));
         if let Err(e) = &r {
